@@ -235,6 +235,34 @@ class SymE:
             st.assume(inst, heavy=True)
         return mk(f(arr, jz))
 
+    def float(self, name, ch):
+        """an arbitrary value representable in struct format ch ('e','f','d'), identified by a fresh integer"""
+        from .libmodels import FloatV, float_fn, STRUCT_SIZES
+        ident = z3.Int(self.st.fresh_name(name))
+        self.st.note_input(name, ident)
+        n = STRUCT_SIZES[ch]
+        bits = float_fn(ch, 'bits')(ident)
+        # struct axiom for representable values: unpack(pack(v)) == v; bit patterns are n-byte values
+        self.st.assume(z3.And(bits >= 0, bits < 256 ** n, float_fn(ch, 'val')(bits) == ident))
+        return FloatV(mk(ident))
+
+    def float_be_bytes(self, v, ch):
+        from .libmodels import float_fn, STRUCT_SIZES
+        n = STRUCT_SIZES[ch]
+        bits = float_fn(ch, 'bits')(zint(v.ident))
+        return [mk((bits / (256 ** (n - 1 - k))) % 256) for k in range(n)]
+
+    def float_eq(self, a, b, ch):
+        from .libmodels import FloatV
+        if isinstance(a, FloatV) and isinstance(b, FloatV):
+            return mk(zint(a.ident) == zint(b.ident))
+        return False
+
+    def tolist(self, seq):
+        """a python-level list value of the program holding the elements of seq"""
+        s = to_seq(seq)
+        return list(s.items) if s.items is not None else s.as_kind('list')
+
     def as_bytes(self, seq):
         """a sequence of byte values as a bytes object of the program"""
         return to_seq(seq).as_kind('bytes')
